@@ -8,6 +8,7 @@ Loops over the prototype chain are proved with loop invariants (pyvc loop rule) 
 Mutators carry whole-view frame conditions (every other key and every other object unchanged).
 B (bounded): generated histories against the reference object model (specs/es_object.py) and the
 call-form x function-kind matrix (specs/es_calls.py), through Context.eval."""
+from pyvc import structural as _S_
 import random, re, json, os
 from pyvc import groups
 from pyvc.groups import ob
@@ -861,19 +862,19 @@ def c08_struct(tier="quick", seed=0):
             if isinstance(tgt, ast.Attribute) and tgt.attr in ("_properties", "_getters", "_setters", "_key_order"):
                 n += 1
                 fresh = isinstance(val, ast.Dict) or (isinstance(val, ast.Constant) and val.value is None) or \
-                    (isinstance(val, ast.Call) and ast.unparse(val.func) in ("dict", "dict.fromkeys"))
+                    (isinstance(val, ast.Call) and _S_.unparse(val.func) in ("dict", "dict.fromkeys"))
                 if not fresh:
-                    bad.append(f"{mod}:{a.lineno} {ast.unparse(a)[:60]}")
+                    bad.append(f"{mod}:{a.lineno} {_S_.unparse(a)[:60]}")
     out.append(ob("C08.struct.property-dictionaries-are-never-shared", not bad and n >= 4, "K3",
                   f"{n} assignments to _properties/_getters/_setters/_key_order, all of fresh dictionaries" if not bad else f"shared or foreign dictionary stored: {bad}"))
     # arrow functions: lexical this is captured where the closure is made and applied after bound-function resolution
-    mk = ast.unparse(S.fn("microjs.vm", "VM._execute_opcode"))
-    inv = ast.unparse(S.fn("microjs.vm", "VM._invoke_js_function"))
+    mk = _S_.unparse(S.fn("microjs.vm", "VM._execute_opcode"))
+    inv = _S_.unparse(S.fn("microjs.vm", "VM._invoke_js_function"))
     ok = "js_func._lexical_this = frame.this_value" in mk and "is_arrow" in mk
     out.append(ob("C08.struct.arrow-captures-this-at-creation", ok, "K3", "MAKE_CLOSURE stores frame.this_value on closures of arrow functions"))
     i_bound, i_lex = inv.find("_original_func"), inv.find("this_val = func._lexical_this")
     out.append(ob("C08.struct.arrow-this-overrides-call-this", 0 <= i_bound < i_lex, "K3",
                   "_invoke_js_function replaces this by the captured one after resolving bound functions (so call/apply/bind cannot change it)"))
-    comp = ast.unparse(S.fn("microjs.compiler", "Compiler._compile_arrow_function"))
+    comp = _S_.unparse(S.fn("microjs.compiler", "Compiler._compile_arrow_function"))
     out.append(ob("C08.struct.arrow-flag-set-by-compiler", "is_arrow=True" in comp, "K3", "_compile_arrow_function marks the compiled function as an arrow"))
     return out
